@@ -21,13 +21,19 @@ struct FnDecl {
     /// declared bounds (indices into POOL), and how they are written
     bounds: Vec<usize>,
     form: u8, // 0 inline generic, 1 where, 2 impl A + B, 3 split
+    /// an additional `?Sized` (imposes nothing; may only be written where the parameter is declared)
+    maybe_sized: bool,
     is_async: bool,
 }
 
 impl FnDecl {
     fn render(&self, vis: &str) -> String {
-        let names: Vec<&str> = self.bounds.iter().map(|b| POOL[*b]).collect();
+        let mut names: Vec<&str> = self.bounds.iter().map(|b| POOL[*b]).collect();
         let amp = if self.by_value { "" } else { "&" };
+        let ms = self.maybe_sized && !self.by_value && matches!(self.form, 0 | 2 | 3) && !names.is_empty();
+        if ms {
+            names.insert(0, "?Sized");
+        }
         let q = if self.is_async { "async " } else { "" };
         let joined = names.join(" + ");
         match (self.form, names.is_empty()) {
@@ -74,7 +80,7 @@ pub fn gen_case(t: &mut Tape, feature_unimock: bool) -> Case {
                 bounds.push(b);
             }
         }
-        fns.push(FnDecl { name: format!("f{i}"), by_value: t.chance(1, 5), bounds, form: t.choose(4) as u8, is_async: t.chance(1, 5) });
+        fns.push(FnDecl { name: format!("f{i}"), by_value: t.chance(1, 5), bounds, form: t.choose(4) as u8, maybe_sized: t.chance(1, 6), is_async: t.chance(1, 5) });
     }
     // mock settings (never exported here: the derivations stay inert, but they decide which types get the impl)
     let mock_api = t.chance(1, 3);
